@@ -162,7 +162,17 @@ class Arr(object):
         a.memrank = self.mem_rank()
         return a
 
-    def view(self, shape, pos):
+    def view(self, shape=None, pos=None, **kw):
+        if shape is None and pos is None:
+            # ndarray.view(): a new array object on the same memory (own flags, same shape and layout)
+            if kw:
+                raise AnalysisError('ndarray.view(%s)' % ', '.join(sorted(kw)))
+            v = Arr(self.shape, buf=self.buf, pos=list(self.pos), kind=self.kind)
+            v.readonly = self.readonly
+            v.memrank = getattr(self, 'memrank', None)
+            return v
+        if not isinstance(shape, tuple) or pos is None:
+            raise AnalysisError('ndarray.view with a dtype / type argument')
         v = Arr(shape, buf=self.buf, pos=pos, kind=self.kind)
         v.readonly = self.readonly
         return v
@@ -172,14 +182,31 @@ class Arr(object):
         a = self
 
         class _Flags(object):
-            writeable = not a.readonly
             c_contiguous = a.mem_rank() is None and sorted(a.pos) == list(range(min(a.pos or [0]), min(a.pos or [0]) + len(a.pos)))
             owndata = len(a.pos) == len(a.buf.data)
             aligned = True
+            _names = {'WRITEABLE': 'writeable', 'C_CONTIGUOUS': 'c_contiguous', 'OWNDATA': 'owndata', 'ALIGNED': 'aligned'}
+
+            @property
+            def writeable(self):
+                return not a.readonly
+
+            @writeable.setter
+            def writeable(self, value):
+                a.readonly = not value          # (flags.writeable = False locks this array object, as setflags does)
 
             def __getitem__(self, key):
-                return getattr(self, {'WRITEABLE': 'writeable', 'C_CONTIGUOUS': 'c_contiguous', 'OWNDATA': 'owndata',
-                                      'ALIGNED': 'aligned'}[key])
+                return getattr(self, self._names[key])
+
+            def __setitem__(self, key, value):
+                if self._names.get(key) != 'writeable':
+                    raise AnalysisError('ndarray.flags[%r] = ..' % (key,))
+                self.writeable = value
+
+            def __setattr__(self, name, value):
+                if name != 'writeable':
+                    raise AnalysisError('ndarray.flags.%s = ..' % name)
+                object.__setattr__(self, name, value)
         return _Flags()
 
     def setflags(self, write=None, **kw):
